@@ -18,6 +18,7 @@ CFG = """SPECIFICATION Spec
 CONSTANTS Fixes = %s
  MaxLen = %d
 INVARIANT Memo
+INVARIANT AnswersCurrentConfiguration
 INVARIANT ErrorOnlyWithoutSearch
 INVARIANT RetrievalAfterSearchSucceeds
 INVARIANT ParamsUntouched
@@ -111,6 +112,21 @@ def fresh_object(inst, preindex=False):
   return tbrmatchedmarkets.TBRMatchedMarkets(data, par), par, keep['df']
 
 
+RECONFIGURED = ('n_designs', 'geo_ratio_tolerance', 'treatment_geos_range', 'control_geos_range')
+
+
+def config_b(inst):
+  """The other set of values of the call-time fields (spec: cfg = "B"): another result cap, the geo-ratio tolerance
+  switched on / off, the size ranges switched on / off."""
+  b = {k: v for k, v in inst.items() if k != 'fresh'}
+  b['par'] = dict(inst['par'])
+  b['par']['n_designs'] = inst['par']['n_designs'] + 1
+  b['gtol'] = (0, 0) if inst['gtol'][1] else (1, 1)
+  b['tr'] = (0, 0) if inst['tr'][1] else (1, 2)
+  b['cr'] = (0, 0) if inst['cr'][1] else (1, 3)
+  return b
+
+
 def fresh_answers(inst):
   out = {}
   for c in CALLS:
@@ -121,27 +137,36 @@ def fresh_answers(inst):
 
 def replay_history(args):
   inst, fresh, hist = args
+  cfgs = {'A': inst, 'B': inst['cfg_b']}
   try:
     mmo, par, df = fresh_object(inst, preindex=(len(hist) + len(hist[0]['call'])) % 2 == 0)
+    pars = {'A': fresh_object(inst)[1], 'B': fresh_object(cfgs['B'])[1]}
   except Exception as e:  # pylint: disable=broad-except
     return ('Construction', '%s: %s' % (type(e).__name__, e), 0)
   par0 = dataclasses.asdict(par)
   df0 = df.copy(deep=True)
   for step, ev in enumerate(hist, start=1):
+    if ev['call'] == 'reconfigure':
+      # the caller's own step: it assigns the other values to the call-time fields of ITS parameter object
+      cur = 'B' if all(getattr(par, f) == getattr(pars['A'], f) for f in RECONFIGURED) else 'A'
+      for f in RECONFIGURED:
+        setattr(par, f, getattr(pars[cur], f))
+      par0 = dataclasses.asdict(par)
+      continue
     got = do_call(mmo, ev['call'])
     pred = ev['answer']
-    if pred == 'fresh':
-      want = fresh[ev['call']]
+    if pred in ('fresh_A', 'fresh_B'):
+      want = fresh[pred[-1]][ev['call']]
     elif pred == 'error':
-      want = fresh['search_results']
-    elif pred in ('last_exh', 'last_greedy'):
-      want = fresh[pred[5:]]
+      want = fresh['A']['search_results']
+    elif pred.startswith('last_'):
+      want = fresh[pred[-1]][pred[5:-2]]
     else:
       return ('SpecPrediction', 'unexpected prediction %r' % pred, step)
     if got != want:
       clause = 'RetrievalReturnsLastSearch' if ev['call'] == 'search_results' else 'AnswerEqualsFreshObject'
-      return (clause, 'call %d %s after %r: got %s, a fresh object answers %s' % (
-          step, ev['call'], [e['call'] for e in hist[:step - 1]], str(got)[:300], str(want)[:300]), step)
+      return (clause, 'call %d %s after %r: got %s, a fresh object (%s) answers %s' % (
+          step, ev['call'], [e['call'] for e in hist[:step - 1]], str(got)[:300], pred, str(want)[:300]), step)
     if dataclasses.asdict(par) != par0:
       return ('ParametersUnmodified', 'after call %d (%s) the caller\'s parameter object changed: %r -> %r' % (
           step, ev['call'], par0, dataclasses.asdict(par)), step)
@@ -194,7 +219,8 @@ def pick_instances(seed, count):
       inst = mm.attach_oracle(inst)
       fa = fresh_answers(inst)
       if fa['exh'][0] == 'ok' and fa['exh'][1] and fa['greedy'][0] == 'ok' and fa['greedy'][1]:
-        inst['fresh'] = fa
+        inst['cfg_b'] = config_b(inst)
+        inst['fresh'] = {'A': fa, 'B': fresh_answers(inst['cfg_b'])}
         out.append(inst)
         break
   return out
@@ -204,23 +230,23 @@ def run(res):
   thorough = res.tier == 'thorough'
   mmdesign.run_design_level(res, 'C10')
   # design level: the API model, complete graph (VIEW hides the history)
-  r = tlc.run_tlc('MMApi', CFG % ('{"D2", "D3"}', 100000, 'VIEW View'), tlc.run_dir('C10_design'), workers=1)
+  r = tlc.run_tlc('MMApi', CFG % ('{"D2", "D3", "R"}', 100000, 'VIEW View'), tlc.run_dir('C10_design'), workers=1)
   tlc.require_clean(r, 'MMApi')
   if r.violated:
     raise tlc.MachineryError('MMApi (current code) violates %s' % r.violated)
   res.add_tlc(r, 'MMApi.fixed')
-  for fixes, inv in (('{"D3"}', 'Memo'), ('{"D2"}', 'ParamsUntouched')):
+  for fixes, inv in (('{"D3", "R"}', 'Memo'), ('{"D2", "R"}', 'ParamsUntouched'), ('{"D2", "D3"}', 'AnswersCurrentConfiguration')):
     r0 = tlc.run_tlc('MMApi', CFG % (fixes, 100000, 'VIEW View'), tlc.run_dir('C10_asis'), workers=1)
     if not r0.violated:
       raise tlc.MachineryError('MMApi with Fixes=%s no longer yields a counterexample' % fixes)
     res.extra['pre_repair_variant_' + fixes] = r0.violated
   depth = 3
-  r = tlc.run_tlc('MMApi', CFG % ('{"D2", "D3"}', depth, 'INVARIANT Emit'), tlc.run_dir('C10_emit'), workers=1)
+  r = tlc.run_tlc('MMApi', CFG % ('{"D2", "D3", "R"}', depth, 'INVARIANT Emit'), tlc.run_dir('C10_emit'), workers=1)
   tlc.require_clean(r, 'MMApi(emit)')
   res.add_tlc(r, 'MMApi.enumerate')
   hists = r.json_lines()
   nsim, simdepth = (3000, 10) if thorough else (300, 8)
-  rs = tlc.run_tlc('MMApi', CFG % ('{"D2", "D3"}', simdepth, 'INVARIANT Emit'), tlc.run_dir('C10_sim'), workers=1,
+  rs = tlc.run_tlc('MMApi', CFG % ('{"D2", "D3", "R"}', simdepth, 'INVARIANT Emit'), tlc.run_dir('C10_sim'), workers=1,
                    simulate='num=%d' % nsim, depth=simdepth + 1, seed=res.seed % 100000)
   tlc.require_clean(rs, 'MMApi(simulate)')
   res.add_tlc(rs, 'MMApi.simulate')
@@ -254,10 +280,10 @@ def run(res):
                                   for k in range(len(names)))
     if bad and len(res.violations) < 25:
       res.violate(bad[0], {'kind': 'history', 'instance': mm.public(inst), 'history': h[:bad[2]]}, bad[1])
-  missing = [c for c in CALLS if c not in calls_seen]
+  missing = [c for c in CALLS + ['reconfigure'] if c not in calls_seen]
   if missing or retrieval_after_search == 0:
     raise tlc.MachineryError('vacuous: calls never made %r, retrievals after a search %d' % (missing, retrieval_after_search))
-  nonempty = sum(1 for f in fresh if f['exh'][0] == 'ok' and f['exh'][1])
+  nonempty = sum(1 for f in fresh if f['A']['exh'][0] == 'ok' and f['A']['exh'][1])
   if nonempty == 0:
     raise tlc.MachineryError('vacuous: no instance has a non-empty exhaustive result')
   res.extra['instances'] = len(insts)
